@@ -473,6 +473,14 @@ func c10H2H3(r *Run, rep *core.Report) {
 				base1 = cc.Call.Args[0]
 				okp = true
 			}
+			// a helper func(s string) unsafe.Pointer that returns the data pointer of its argument (unsafe.StringData, or
+			// the first word of a string header overlay): the string is the call's argument
+			if cc, isCall := core.StripConv(args[0]).(*ssa.Call); isCall && !okp {
+				if g := core.Callee(cc); g != nil && stringDataHelper(g) && len(cc.Call.Args) == 1 {
+					base1 = cc.Call.Args[0]
+					okp = true
+				}
+			}
 			if ld, isLd := resolveNoCell(args[2]).(*ssa.UnOp); isLd {
 				if fa, isFA := ld.X.(*ssa.FieldAddr); isFA && namedOfType(elemOf(fa.X.Type())) == "reflect.StringHeader" && fa.Field == 1 {
 					base2 = core.StripConv(fa.X)
@@ -715,7 +723,9 @@ func c10H5(r *Run, rep *core.Report) {
 			if !isG || globalEverSet(r, g) {
 				continue
 			}
-			if b.Succs[0].Dominates(in.Block()) && !blockReach(b.Succs[1])[in.Block()] {
+			// (dominance is enough: every path to the panic takes the flag's true edge, which is never taken - that the
+			// false edge reaches the same block again in a later loop iteration does not matter)
+			if b.Succs[0] != b.Succs[1] && len(b.Succs[0].Preds) == 1 && (b.Succs[0] == in.Block() || b.Succs[0].Dominates(in.Block())) {
 				return true, "guarded by a flag that is never set"
 			}
 			// short-circuit forms: the flag's true edge leads to a block that dominates the panic
@@ -1097,9 +1107,11 @@ func c10H3raw(r *Run, rep *core.Report) {
 		})
 		okAll := len(made) > 0
 		why := "the function is handed out without a test of the key type's kind"
-		for _, m := range made {
+		// kindsAt: the reflect kinds under which an instruction of g executes (case values of the switch on Kind() whose
+		// body contains it)
+		kindsAt := func(g *ssa.Function, m ssa.Instruction) []int64 {
 			var kinds []int64
-			core.Instrs(par, func(in ssa.Instruction) {
+			core.Instrs(g, func(in ssa.Instruction) {
 				iff, ok := in.(*ssa.If)
 				if !ok {
 					return
@@ -1115,17 +1127,29 @@ func c10H3raw(r *Run, rep *core.Report) {
 						continue
 					}
 					t := iff.Block().Succs[0]
-					if t == m.Block() || t.Dominates(m.Block()) || blockReachUntil(t, nil)[m.Block()] && !blockReachUntil(iff.Block().Succs[1], nil)[m.Block()] {
-						kinds = append(kinds, k)
-					} else if blockReachUntil(t, nil)[m.Block()] {
-						// one of several case values leading to the same body
+					if t == m.Block() || t.Dominates(m.Block()) || blockReachUntil(t, nil)[m.Block()] {
 						kinds = append(kinds, k)
 					}
 				}
 			})
+			return kinds
+		}
+		var judge func(g *ssa.Function, m ssa.Instruction, depth int)
+		judge = func(g *ssa.Function, m ssa.Instruction, depth int) {
+			kinds := kindsAt(g, m)
 			if len(kinds) == 0 {
+				// a factory for such functions (intBitsHasher[T]()): judged where the factory is called
+				sites := core.CallSitesOf(r.P.Funcs, g)
+				if depth < 2 && len(sites) > 0 {
+					for _, site := range sites {
+						if in, isIn := site.(ssa.Instruction); isIn {
+							judge(site.Parent(), in, depth+1)
+						}
+					}
+					return
+				}
 				okAll = false
-				continue
+				return
 			}
 			for _, k := range kinds {
 				if _, good := bitsOK[k]; !good {
@@ -1134,6 +1158,43 @@ func c10H3raw(r *Run, rep *core.Report) {
 				}
 			}
 		}
+		for _, m := range made {
+			judge(par, m, 0)
+		}
 		rep.Check(okAll, "C10.H3", cons, r.P.InstrPos(raw), "raw bits are hashed only for kinds whose == is bit equality", "a hash function for generic keys takes the raw bits of the key as hash input and "+why+": equal keys (+0 and -0) hash differently under one seed and become two keys")
 	}
+}
+
+// stringDataHelper: func(s string) unsafe.Pointer whose every return is the data pointer of s.
+func stringDataHelper(g *ssa.Function) bool {
+	if g.Blocks == nil || len(g.Params) != 1 || g.Signature.Results().Len() != 1 {
+		return false
+	}
+	if b, ok := g.Params[0].Type().Underlying().(*types.Basic); !ok || b.Kind() != types.String {
+		return false
+	}
+	n, okAll := 0, true
+	core.Instrs(g, func(in ssa.Instruction) {
+		ret, isRet := in.(*ssa.Return)
+		if !isRet {
+			return
+		}
+		n++
+		v := core.StripConv(ret.Results[0])
+		if c, isCall := v.(*ssa.Call); isCall && (core.IsBuiltinCall(c) == "StringData" || core.CalleeID(c) == "unsafe.StringData") && core.StripConv(c.Call.Args[0]) == ssa.Value(g.Params[0]) {
+			return
+		}
+		// (*struct{data unsafe.Pointer; len int})(unsafe.Pointer(&s)).data - also reflect.StringHeader.Data
+		if ld, isLd := v.(*ssa.UnOp); isLd && ld.Op == token.MUL {
+			if fa, isFA := ld.X.(*ssa.FieldAddr); isFA && fa.Field == 0 {
+				if cell, isCell := core.StripConv(fa.X).(*ssa.Alloc); isCell {
+					if st := uniqueStore(cell); st != nil && st.Val == ssa.Value(g.Params[0]) {
+						return
+					}
+				}
+			}
+		}
+		okAll = false
+	})
+	return okAll && n > 0
 }
